@@ -64,7 +64,8 @@ def gen_plan(rng, tier, index):
             'n_models': rng.randint(1, 2), 'eval_method': rng.pick(['corr', 'cosine', 'spearman']),
             'n_centers_big': rng.pick([999, 1000, 1001, 1002, 1100, 1331, 2003]), 'n_vox_big': rng.randint(6, 40),
             'dtype': rng.pick(['float64', 'float64', 'float32', 'int64', 'int16']),
-            'mask_layout': rng.pick(['C', 'C', 'F', 'T']), 'centre_pick': rng.pick(['all', 'all', 'subset', 'permuted'])}
+            'mask_layout': rng.pick(['C', 'C', 'F', 'T']), 'centre_pick': rng.pick(['all', 'all', 'subset', 'permuted']),
+            'model_kind': rng.pick(['fixed', 'fixed', 'weighted', 'mixed', 'single']), 'theta_salt': rng.pick([0, 0, 1, 2, 3])}
     return plan
 
 
@@ -294,12 +295,27 @@ def execute(plan, ctx):
         ctx.behaviour('rdm', shape_class, round(plan['radius'], 2), plan['threshold'], plan['method'], len(centers) > 1000)
         return
     # ---------------- eval: models over searchlights under the scheduler seam
-    from rsatoolbox.model import ModelFixed
+    from rsatoolbox.model import ModelFixed, ModelWeighted
     from rsatoolbox.inference import eval_fixed
     n_cond = len(set(events))
     npair = n_cond * (n_cond - 1) // 2
-    models = [ModelFixed('mod%d' % m, np.array([(H('mod', m, p) % 97) / 8.0 + 0.25 for p in range(npair)]))
-              for m in range(plan['n_models'])]
+    mk = plan.get('model_kind', 'fixed')
+    models, theta = [], []
+    for m in range(plan['n_models']):
+        if mk == 'weighted' or (mk == 'mixed' and m % 2 == 0):
+            # a flexible model: the evaluation depends on the parameters handed through to every task
+            models.append(ModelWeighted('mod%d' % m, np.array([[(H('mod', m, b, p) % 97) / 8.0 + 0.25 for p in range(npair)]
+                                                                for b in range(3)])))
+            theta.append(np.array([(H('theta', plan.get('theta_salt', 0), m, b) % 9) / 4.0 + 0.25 for b in range(3)]))
+        else:
+            models.append(ModelFixed('mod%d' % m, np.array([(H('mod', m, p) % 97) / 8.0 + 0.25 for p in range(npair)])))
+            theta.append(None)
+    if not plan.get('theta_salt', 0):
+        theta = None
+    if mk == 'single':
+        models = models[0]                      # "can also be a single model"
+        theta = None
+    mlist = models if isinstance(models, list) else [models]
     # correlation RDMs from single-voxel searchlights are NaN: keep only evaluable centres for the evaluation part
     ok = [i for i in range(sl.n_rdm) if np.all(np.isfinite(sl.dissimilarities[i])) and np.ptp(sl.dissimilarities[i]) > 0]
     if len(ok) < 2:
@@ -313,19 +329,19 @@ def execute(plan, ctx):
     if pick == 'permuted' and sl_ok.n_rdm > 2:
         perm = list(range(sl_ok.n_rdm))[::-1]
         sl_ok = sl_ok[perm]            # centres in another order
-    fp_before = (_fp(sl_ok), [_fp(m.rdm_obj) for m in models])
+    fp_before = (_fp(sl_ok), [_fp(m.rdm_obj) for m in mlist])
     em = plan['eval_method']
     reference = []
     for i in range(sl_ok.n_rdm):
         x = sl_ok[i]
         reference.append({'voxel': int(np.asarray(x.rdm_descriptors['voxel_index']).ravel()[0]),
-                          'evals': np.array(eval_fixed(models, x, method=em).evaluations, copy=True)})
+                          'evals': np.array(eval_fixed(models, x, method=em, theta=theta).evaluations, copy=True)})
     s = plan['sched']
     outs = {}
     sched = Scheduler(ctx, s['seed'], policy=s['policy'], batch_size=s['batch'], straggler=s['straggler'])
     try:
         with sched:
-            r_ = evaluate_models_searchlight(sl_ok, models, tag_eval, method=em, n_jobs=s['n_jobs'])
+            r_ = evaluate_models_searchlight(sl_ok, models, tag_eval, method=em, theta=theta, n_jobs=s['n_jobs'])
             outs['sim'] = r_ if isinstance(r_, list) else list(r_)      # a lazily returned result is consumed under the scheduler
     except Stall as e:
         ctx.violation('sl_ref.progress', 'evaluate_models_searchlight:stall', f'evaluate_models_searchlight did not return: {e}')
@@ -334,7 +350,7 @@ def execute(plan, ctx):
         ctx.violation('sl_ref.eval', f'evaluate_models_searchlight:raises:{type(e).__name__}',
                       f'evaluate_models_searchlight raised {type(e).__name__}: {e} (n_jobs={s["n_jobs"]}, policy={s["policy"]})')
         return
-    outs['seq'] = evaluate_models_searchlight(sl_ok, models, tag_eval, method=em, n_jobs=1)
+    outs['seq'] = evaluate_models_searchlight(sl_ok, models, tag_eval, method=em, theta=theta, n_jobs=1)
     for name, out in outs.items():
         out = list(out) if not isinstance(out, list) else out
         if len(out) != len(reference):
@@ -343,12 +359,14 @@ def execute(plan, ctx):
             return
         for i, (g, e) in enumerate(zip(out, reference)):
             if g['voxel'] != e['voxel'] or g['evals'].tobytes() != e['evals'].tobytes():
-                ctx.violation('sl_ref.eval', f'evaluate_models_searchlight:order:{name}',
-                              f'result {i} is the evaluation of centre {g["voxel"]}, expected centre {e["voxel"]} '
+                what = 'order' if g['voxel'] != e['voxel'] else 'values'
+                ctx.violation('sl_ref.eval', f'evaluate_models_searchlight:{what}:{name}',
+                              f'result {i} is the evaluation of centre {g["voxel"]}, expected centre {e["voxel"]}'
+                              f'{"" if what == "order" else " (right centre, but not the evaluation of that centre with the requested models, method and theta)"} '
                               f'(n_jobs={s["n_jobs"] if name == "sim" else 1}, batch={s["batch"]}, policy={s["policy"]}, '
                               f'straggler={s["straggler"]}, completion order {sched.completion_order[:20]})')
                 return
-    if (_fp(sl_ok), [_fp(m.rdm_obj) for m in models]) != fp_before:
+    if (_fp(sl_ok), [_fp(m.rdm_obj) for m in mlist]) != fp_before:
         ctx.violation('sl_ref.eval', 'evaluate_models_searchlight:mutates-inputs', 'models or searchlight RDMs changed during evaluation')
         return
     if sched.queue:
@@ -360,4 +378,4 @@ def execute(plan, ctx):
     inorder = sched.completion_order == sorted(sched.completion_order)
     if not inorder:
         ctx.probe('out_of_order_completions')
-    ctx.behaviour('eval', s['n_jobs'], s['batch'], s['policy'], s['straggler'], perm)
+    ctx.behaviour('eval', s['n_jobs'], s['batch'], s['policy'], s['straggler'], perm, mk, theta is not None)
